@@ -55,7 +55,7 @@ def e2e_fixed(name, kt, n, eps, epsrec, seed, shape, flt='float', tiers=Q, timeo
             extra=dict(FIXED_DATA=','.join('%dULL' % x for x in data), VERIF_VEC_CAP=n + 8, **(extra or {})))
     j['bounds'] = ('ONE concrete sorted data set of %d %s keys (shape %r, python random.Random(%d), listed in the job definition) and EVERY non-reserved query key of the type (symbolic); '
                    'Epsilon=%d, EpsilonRecursive=%d, %s slopes; decides the property for this data set only' % (n, kt, shape, seed, eps, epsrec, flt))
-    j['profile_unwind'] = 2 * n + 40; j['refine_rounds'] = 12
+    j['profile_unwind'] = 700 if extra and 'WITH_FRAME' in extra else 2 * n + 40; j['refine_rounds'] = 12
     j['cbmc_extra'] = ['--max-field-sensitivity-array-size', str(n + 16)]     # keep the concrete construction constant-propagated element by element
     if extra and 'SYM_LAST' in extra: j['bounds'] = j['bounds'].replace('ONE concrete sorted data set', 'a sorted data set whose LAST key is symbolic (any value >= its predecessor) and whose other keys are concrete:')
     return j
@@ -132,7 +132,8 @@ def dynrej(name, kind, maxbulk=2, tiers=Q, timeout=900):
     return dict(name=name, unit='dyn_reject.cpp', harness='h_dyn_reject.c', defs=d, narrow=16, timeout=timeout, tiers=tiers,
                 bounds=['every base 2..40 (buffer_level 1)', 'every bulk-load of %d pairs over keys 0..6, sorted or not' % maxbulk,
                         'insert_or_assign of every key 0..8 with every value 250..255 into a container bulk-loaded with %d pairs' % maxbulk,
-                        'range(lo,hi) for every lo,hi in 0..9 on a container bulk-loaded with %d pairs' % maxbulk][kind])
+                        'range(lo,hi) for every lo,hi in 0..9 on a container bulk-loaded with %d pairs' % maxbulk,
+                        'every sorted bulk-load of %d pairs (repeated keys allowed) with mapped values 252..255, 255 being the reserved tombstone value, at every position' % maxbulk][kind])
 
 
 def bucketing(name, n, topsize, topbits=32, eps=1, tiers=Q, timeout=1800, mem_gb=14):
@@ -141,6 +142,19 @@ def bucketing(name, n, topsize, topbits=32, eps=1, tiers=Q, timeout=1800, mem_gb
                 noop=['memory_monitor6record'], unreachable=['_Rb_tree', 'system_category', 'system_error', 'bad_alloc', 'hugepage'],
                 bounds='exactly %d sorted uint8_t keys, every non-reserved query, Epsilon=%d, TopLevelSize=%d, TopLevelBitSize=%d; sdsl::int_vector is the real code on malloc/realloc; '
                        'sdsl::memory_monitor::record stubbed (accounting only), huge-page allocator paths asserted unreachable' % (n, eps, topsize, topbits))
+
+
+def sdsl_fixed(name, unit, ufunc, kt, data, eps=1, epsrec=1, tiers=Q, timeout=1800, mem_gb=14, fs=256, punwind=5000):
+    n = len(data)
+    j = sdslidx(name, unit, ufunc, kt, n, eps=eps, epsrec=epsrec, tiers=tiers, timeout=timeout, mem_gb=mem_gb)
+    j['defs'].update(FIXED_DATA=','.join('%dULL' % x for x in data), VERIF_VEC_CAP=n + 8)
+    # concrete profiling with an unwind limit of thousands (select-support blocks) takes longer than the symbolic run itself (9 s): start every loop at 1 and
+    # let the unwinding assertions raise the bounds, all failing loops at once, doubling per round
+    j['profile_samples'] = 1; j['profile_unwind'] = 40; j['profile_timeout'] = 120; j['refine_rounds'] = 80
+    j['cbmc_extra'] = ['--max-field-sensitivity-array-size', str(fs)]
+    j['bounds'] = ('ONE concrete sorted data set of %d %s keys %s and EVERY non-reserved query key (symbolic); Epsilon=%d, EpsilonRecursive=%d; sdsl (sd_vector, select/rank supports, int_vector) is the real code, '
+                   'its construction is constant-propagated; decides the property for this data set only' % (n, kt, data if n <= 12 else '(listed in the job definition)', eps, epsrec))
+    return j
 
 
 def bucketing_fixed(name, kt, data, topsize, topbits, eps=1, tiers=Q, timeout=1200, mem_gb=14):
@@ -243,7 +257,7 @@ JOBS['C04'] = [pla('pla_max_k3_e%d_x15' % e, 3, epsfix=e, xmax=15, ymax=6) for e
 JOBS['C14'] = [md('md_contains_n1', 0, 1, 3), md('md_contains_n2', 0, 2, 3)]
 JOBS['C13'] = [md('md_range_n1', 1, 1, 3), md('md_range_n2', 1, 2, 3), md('md_range_n3_skip', 1, 3, 1, miss=0, epsrec=0, timeout=3000, tiers=T, mem_gb=40)]
 JOBS['C05'] = [dyn('dyn_q_noidx_b0_o2', 0, 0, 2, idxl=10), dyn('dyn_q_noidx_b0_o3', 0, 0, 3, idxl=10), dyn('dyn_q_noidx_b0_o4', 0, 0, 4, idxl=10, timeout=1500)]
-JOBS['C06'] = [dyn('dyn_it_noidx_b0_o2', 1, 0, 2, idxl=10), dyn('dyn_rng_noidx_b0_o2', 3, 0, 2, idxl=10), dyn('dyn_lbit_noidx_b0_o2', 4, 0, 2, idxl=10), dyn('dyn_it_noidx_b0_o4', 1, 0, 4, idxl=10, tiers=T, timeout=3000)]
+JOBS['C06'] = [dyn('dyn_it_noidx_b0_o2', 1, 0, 2, idxl=10), dyn('dyn_rng_noidx_b0_o2', 3, 0, 2, idxl=10), dyn('dyn_lbit_noidx_b0_o2', 4, 0, 2, idxl=10), dyn('dyn_it_noidx_b0_o3', 1, 0, 3, idxl=10, tiers=T, timeout=3000)]   # 4 operations: out of memory at the 14 GB cap - not a job
 JOBS['C05'] += [mergek('merge_skip_r3', 1), mergek('merge_keep_r3', 0),
                 mergek('merge_skip_r4', 1, runmax=4, kmax=7, tiers=T, timeout=1800), mergek('merge_keep_r4', 0, runmax=4, kmax=7, tiers=T, timeout=1800)]
 JOBS['C06'] += [losertree('losertree_k%d' % k, k) for k in (1, 2, 3, 4)]
@@ -253,8 +267,8 @@ QUICK_MODES = {0: (0, 2, 4), 1: (0, 1, 2, 4), 2: (0, 4), 3: (0, 2, 6)}      # th
 JOBS['C19'] = [copyjob('copy_%s_%s_n2' % (kn, MODE_TAG[m]), k, 2, 1, 1 << m, tiers=Q if m in QUICK_MODES[k] else T, timeout=1500)
                for k, kn, ms in ((0, 'pgm', range(6)), (1, 'bucket', range(6)), (2, 'md', range(6)), (3, 'dyn', (0, 2, 6, 7))) for m in ms]
 JOBS['C15'] = [dyn('dyn_inv_noidx_b0_o2', 2, 0, 2, idxl=10), dyn('dyn_inv_noidx_b0_o3', 2, 0, 3, idxl=10), dyn('dyn_inv_noidx_b0_o4', 2, 0, 4, idxl=10, tiers=T, timeout=3000, mem_gb=40)]
-JOBS['C05'] += [dynstep('dynstep_find_311', 5, 3, 1, 1, timeout=1500), dynstep('dynstep_find_310', 5, 3, 1, 0, tiers=T, timeout=3000), dynstep('dynstep_q_310', 0, 3, 1, 0, tiers=T, timeout=3000), dynstep('dynstep_q_321', 0, 3, 2, 1, tiers=T, timeout=3000, mem_gb=40)]
-JOBS['C06'] += [dynstep('dynstep_range_310', 6, 3, 1, 0, tiers=T, timeout=3000, mem_gb=40), dynstep('dynstep_it_310', 1, 3, 1, 0, tiers=T, timeout=3000, mem_gb=40), dynstep('dynstep_rng_310', 3, 3, 1, 0, tiers=T, timeout=3000, mem_gb=40)]
+JOBS['C05'] += [dynstep('dynstep_find_311', 5, 3, 1, 1, timeout=1500), dynstep('dynstep_find_310', 5, 3, 1, 0, tiers=T, timeout=3000), dynstep('dynstep_q_310', 0, 3, 1, 0, tiers=T, timeout=3000)]   # dynstep_q_321 (second level up to 2, third up to 1): no verdict in 3000 s (solver timeout) - not a job
+JOBS['C06'] += [dynstep('dynstep_range_310', 6, 3, 1, 0, tiers=T, timeout=3000, mem_gb=40), dynstep('dynstep_it_310', 1, 3, 1, 0, tiers=T, timeout=3000, mem_gb=40)]   # dynstep_rng_310 (size/empty/range in one harness): out of memory at 34 GB - not a job; range alone is dynstep_range_310
 JOBS['C15'] += [dynstep('dynstep_inv_322', 2, 3, 2, 2)]
 JOBS['C11'] = [mapped('mapped_u8_n2', 'uint8_t', 2), mapped('mapped_i8_n2', 'int8_t', 2), mapped('mapped_u8_n3_dense', 'uint8_t', 3, ord_hi=3), mapped('mapped_i8_n3', 'int8_t', 3, tiers=T, timeout=3000)]
 
@@ -270,9 +284,10 @@ JOBS['C16'] += [dynframe('dynframe_q_o2', 0, 2), dynframe('dynframe_it_o2', 1, 2
 JOBS['C20'] = [e2e('reject_u8_n%d' % n, 'uint8_t', n, 1, 1, extra=dict(ALLOW_SENTINEL=1)) for n in (1, 2)] + \
               [e2e('reject_i8_n2', 'int8_t', 2, 1, 0, extra=dict(ALLOW_SENTINEL=1))]
 JOBS['C20'] += [pla('pla_reject_k3_e1', 3, epsfix=1, ymax=6, maximality=False, reject=True)]
-JOBS['C20'] += [dynrej('dynrej_base', 0), dynrej('dynrej_bulk', 1, 3), dynrej('dynrej_tomb', 2), dynrej('dynrej_range', 3)]
+JOBS['C20'] += [dynrej('dynrej_base', 0), dynrej('dynrej_bulk', 1, 3), dynrej('dynrej_tomb', 2), dynrej('dynrej_range', 3), dynrej('dynrej_bulktomb', 4, 3)]
 JOBS['C18'] = [cpgm('cpgm_u32_n2', 'uint32_t', 'uint32', 2), cpgm('cpgm_i32_n2', 'int32_t', 'int32', 2), cpgm('cpgm_u64_n2_null_e1', 'uint64_t', 'uint64', 2, epslo=1, ephi=1, spread=7, sentinel=True, tiers=T, timeout=3000), cpgm('cpgm_u64_n2_null', 'uint64_t', 'uint64', 2, sentinel=True, tiers=T, timeout=3000),
-               cpgm('cpgm_i64_n3', 'int64_t', 'int64', 3, tiers=T, timeout=3000), cpgm('cpgm_u32_n2_eps4096', 'uint32_t', 'uint32', 2, epslo=1, ephi=4096, tiers=T, timeout=3000)]
+               # cpgm_i64_n3 (64-bit keys, n = 3): no verdict in 1329 s of solver time under load - not a job
+               cpgm('cpgm_u32_n2_eps4096', 'uint32_t', 'uint32', 2, epslo=1, ephi=4096, tiers=T, timeout=3000)]
 
 E2E_OUT = ['n >= 5 keys end to end (n = 5 ran out of memory at 14 GB)', 'Epsilon > 1 and EpsilonRecursive > 1', 'key types wider than 8 bits end to end (C18 covers 32/64-bit keys at n <= 3 through the C interface)',
            'floating-point keys, double slopes', 'real OpenMP execution of the chunks (the chunk loop is run sequentially through hook H1)',
@@ -318,6 +333,10 @@ PROPS = {
                 explanation='Data whose last key is the reserved value is rejected with std::invalid_argument, and only such data (e2e jobs with the sentinel allowed); add_point with a non-increasing key throws logic_error.'),
 }
 # fixed-data jobs: one concrete data set, every query symbolic
+# probes, not claimed: Elias-Fano / Compressed on fixed data.  The symbolic run is cheap while the loop bounds are small (9 s, 1.2 GB) but the select-support
+# construction loops (4096-entry blocks) must be unwound in full even on concrete data: 11.9 GB and out of memory at the 14 GB cap during bound refinement.
+EF_FIXED_PROBE = [sdsl_fixed('ef_fixed_u32_n9', 'eliasfano.cpp', 'u_eliasfano', 'uint32_t', fixed_data('uint32_t', 9, 2, 'clustered')),
+                  sdsl_fixed('cpgm_fixed_u32_n9', 'compressed.cpp', 'u_compressed', 'uint32_t', fixed_data('uint32_t', 9, 2, 'clustered'))]
 # dynamic cell width: one data set per segments.size() in 2..9 (found with the native library: first (n, shape, seed) giving that many segments),
 # so that the width computation is exercised on both sides of every power of two up to 8
 BUCKET_SEGSETS = {2: (2, 'clustered', 1), 3: (4, 'uniform', 1), 4: (9, 'clustered', 2), 5: (15, 'clustered', 3), 7: (24, 'clustered', 3), 8: (32, 'clustered', 3), 9: (34, 'clustered', 1)}
@@ -335,6 +354,8 @@ FX_D = e2e_fixed('e2e_fixed_i64_n40_e2_r2_uniform', 'int64_t', 40, 2, 2, 2, 'uni
 FX_E = e2e_fixed('e2e_fixed_u64_n80_e4_r4_s3', 'uint64_t', 80, 4, 4, 3, 'clustered', flt='double', tiers=T, timeout=1800)
 FX_BIN = e2e_fixed('e2e_fixed_u64_n113_e1_r26_groups', 'uint64_t', 113, 1, 26, 1, 'groups', flt='double', timeout=1800)
 JOBS['C07'] += [FX_A, FX_B, FX_C, FX_BIN]
+JOBS['C16'] += [e2e_fixed('frame_fixed_u32_n24_e1_r1_s6', 'uint32_t', 24, 1, 1, 6, 'clustered', extra=dict(WITH_FRAME=1, SNAP_MAX=512)),
+                e2e_fixed('frame_fixed_u32_n40_e1_r0_steps8', 'uint32_t', 40, 1, 0, 8, 'steps', extra=dict(WITH_FRAME=1, SNAP_MAX=512), tiers=T)]
 JOBS['C01'] += [FX_A, FX_D, FX_E]
 JOBS['C02'] += [FX_BIN, FX_B, FX_D, FX_E]
 # (a symbolic LAST key on top of fixed data - harness switch SYM_LAST - ran out of memory at 14 GB even for n = 24: not a job)
